@@ -393,7 +393,7 @@ Proof.
     cbn [execs fold_left]. rewrite Estep.
     destruct (CE.io_complete s1 more) as [s' l'] eqn:Ec.
     pose proof (CB.io_complete_spec _ _ _ _ Ec) as S.
-    destruct S as (S1 & S2 & S3 & S4 & S5 & S6 & S7 & S8 & S9 & S10 & S11).
+    destruct S as (S1 & S2 & S3 & S4 & S5 & S6 & S8 & S9 & S10 & S11).
     cbn [requests sent_continue request add_task_calls set eta_chan].
     rewrite <- Fc, <- Fem.
     split; [|split; [assumption|split; [rewrite S10, T9, Hrl; destruct more; reflexivity|assumption]]].
